@@ -349,6 +349,14 @@ def procedures(env, cc):
             raise AssertionError('re-parse returned another formula')
         return None, None
     P['reparse_dag'] = reparse
+    # rewriters that are plain functions (no walker): counted by function
+    # entries inside pysmt
+    P['conjunctive_partition'] = lambda f: (
+        None, sum(1 for _ in RW.conjunctive_partition(f)))
+    P['disjunctive_partition'] = lambda f: (
+        None, sum(1 for _ in RW.disjunctive_partition(f)))
+    P['propagate_toplevel'] = lambda f: (
+        None, RW.propagate_toplevel(f, env, do_simplify=False))
     return P
 
 
@@ -362,11 +370,17 @@ def run_construction(rep, env, name, n):
 
 BOOL_ONLY = ('nnf', 'aig', 'prenex')
 ARITH_ONLY = ('times_distributor',)
+BOOL_ONLY = ('conjunctive_partition', 'disjunctive_partition',
+             'propagate_toplevel')
+BOOL_FAMS = ('and', 'or', 'implies', 'iff', 'not', 'ite_bool', 'and_flat',
+             'or_flat')
 
 
 def applicable(proc, fam):
     if proc in ARITH_ONLY:
         return fam.split('_')[0] in ('plus', 'minus', 'times')
+    if proc in BOOL_ONLY:
+        return fam in BOOL_FAMS
     return True
 
 
@@ -426,7 +440,7 @@ def run(rep):
                         finally:
                             work, walks = cc.stop()
                         if k is None:
-                            k = walks
+                            k = work if proc in BOOL_ONLY else walks
                     counts.append((n, size, k, work))
             except WorkBudgetExceeded as e:
                 rep.violation('C20/work-budget-exceeded/%s/%s' % (proc, fam),
@@ -465,6 +479,8 @@ def run(rep):
             # token-level measures (printer / parser) see each node a few
             # more times (let name, operator, references): larger constant
             cc_ = 20 if proc in ('reparse_dag', 'to_smtlib_dag') else C
+            if proc in BOOL_ONLY:
+                cc_ = 60     # function entries, not callbacks
             if k2 > cc_ * s2 or (k1 > 0 and k2 > 2.5 * k1):
                 rep.violation(
                     'C20/superlinear/%s/%s' % (proc, fam),
